@@ -725,6 +725,12 @@ async fn watch_membership_changes(
     while let Some(members) = changes.next().await {
         task_service.membership_change(members.clone());
         repair_service.membership_change(members.clone());
+        #[cfg(datacake_verif)]
+        verif::membership_forwarded(
+            task_service.verif_id(),
+            repair_service.verif_id(),
+            &members,
+        );
     }
 }
 
